@@ -70,12 +70,12 @@ func (w *worker) freshVerdict(it item) (peakLine, error) {
 	if _, err := os.Stat(lines); err != nil {
 		os.WriteFile(lines, []byte("BLOBS []\nFIXED {}\nTAILS []\nJSONCAT []\nTEXTCAT []\nCLASSES []\n"), 0o644)
 	}
-	j := job{Kind: "one", Lines: lines, Out: base + ".out", Progress: base + ".progress", DeadlineMs: w.j.DeadlineMs,
+	j := job{Kind: "one", Lines: lines, Out: base + ".out", Progress: base + ".progress", // (the standard deadlines: measuring slows a case down)
 		One: &oneCase{Entry: it.entry, Type: it.typ, Hex: hex.EncodeToString(it.in), Key: it.key, Verdict: true}}
 	jb, _ := json.Marshal(j)
 	os.WriteFile(base+".job", jb, 0o644)
 	defer func() { os.Remove(base + ".job"); os.Remove(base + ".out"); os.Remove(base + ".progress") }()
-	code, stderr, timedOut := runProcess(base+".job", 4*longDeadline)
+	code, stderr, timedOut := runProcess(base+".job", 8*time.Minute)
 	if timedOut || code != 0 {
 		return v, fmt.Errorf("fresh process exit %d (timed out: %v): %s", code, timedOut, firstLines(stderr, 2))
 	}
@@ -592,8 +592,8 @@ var canaryFuncs = map[string]func() error{
 	"allocates": func() error { canarySink = append(canarySink[:0], make([]byte, 8<<20)); return nil }, // 8 MiB held for 16 bytes
 	"slow":      func() error { time.Sleep(2 * deadline); return nil },                                 // returns before the long deadline: an observation
 	"hangs":     func() error { time.Sleep(3 * longDeadline); return nil },                             // does not
-	"churns": func() error { // 64 MiB of garbage in total, 32 KiB held at any time, at the pace of a parser (~400 MB/s); "input" 64 KiB
-		for i := 0; i < 2048; i++ {
+	"churns": func() error { // 128 MiB of garbage in total, 32 KiB held at any time, at the pace of a parser (~400 MB/s); "input" 256 KiB
+		for i := 0; i < 4096; i++ {
 			b := make([]byte, 32<<10)
 			h := sha256.Sum256(b)
 			b[0] = h[0]
@@ -610,7 +610,7 @@ func (w *worker) canaries() {
 		name := name
 		in := make([]byte, 16)
 		if name == "churns" {
-			in = make([]byte, 64<<10) // bound 5 MiB: the measure's resolution (what is allocated during one forced collection) is 1-3 MB
+			in = make([]byte, 256<<10) // bound 17 MiB: the measure's resolution (what is allocated during one forced collection) is 1-3 MB
 		}
 		items = append(items, item{idx: i, key: "canary/" + name, n: len(in), class: name, run: canaryFuncs[name], entry: "canary", typ: name, in: in,
 			fail: func(kind string, o outcome, alloc uint64) {
